@@ -584,3 +584,132 @@ V("C03-root-keyfile-in-field", "C03", "to_python decrypts with the root's key fi
   "                with cfg._keyfile as ctx:\n                    text = ctx.decrypt",
   "                root = cfg\n                while root._parent:\n                    root = root._parent\n                with root._keyfile as ctx:\n                    text = ctx.decrypt",
   expect_rule="keyfile.of-given-config")
+
+# ------------------------------------------------------------------------------------------ C07
+V("C07-keep-malformed", "C07", "D4 re-introduced: malformed key content kept after the rejection", ENC,
+  """            try:
+                self._validate_key()
+            except EncryptionError:
+                # never keep the content of a malformed key file
+                self.__key = None
+                raise
+""", "            self._validate_key()\n", expect_rule="typestate.no-unvalidated-retained")
+V("C07-no-validate", "C07", "loaded key never validated", ENC,
+  """            try:
+                self._validate_key()
+            except EncryptionError:
+                # never keep the content of a malformed key file
+                self.__key = None
+                raise
+""", "            pass\n", expect_rule="typestate.validated-on-return")
+V("C07-guard-removed", "C07", "encrypt no longer checks that the key file is open", ENC,
+  "        if not self.__key:\n            raise TypeError(\"key file is not open\")\n\n        bindata =",
+  "        bindata =", expect_rule="guard.key-loaded @ KeyFile.encrypt")
+V("C07-exit-no-clear", "C07", "__exit__ keeps the key", ENC,
+  "        if self.__refcount == 0:\n            self.__key = None\n", "", expect_rule="exit.clears-at-zero")
+V("C07-exit-clear-wrong-count", "C07", "__exit__ clears at count 1", ENC,
+  "        if self.__refcount == 0:", "        if self.__refcount == 1:", expect_rule="exit.clears-at-zero")
+V("C07-two-urandoms", "C07", "the key written differs from the key returned", ENC,
+  "            fp.write(key)\n        return key", "            fp.write(os.urandom(32))\n        return key",
+  expect_rule="generated-is-written-is-returned")
+V("C07-key-truncated", "C07", "AES uses only the first 16 bytes of the key", ENC,
+  "        cipher = Cipher(\n            algorithms.AES(self.__key), modes.CBC(iv), backend=default_backend()\n        )\n        encryptor",
+  "        cipher = Cipher(\n            algorithms.AES(self.__key[:16]), modes.CBC(iv), backend=default_backend()\n        )\n        encryptor",
+  expect_rule="verbatim.provider-uses-whole-key", check=["C07", "C08"])
+V("C07-read-stripped", "C07", "key file content stripped before use", ENC,
+  "                self.__key = fp.read()", "                self.__key = fp.read().strip()", expect_rule="verbatim.read-to-slot")
+V("C07-regenerate-on-invalid", "C07", "an invalid key file is silently overwritten by a new key", ENC,
+  """            try:
+                self._validate_key()
+            except EncryptionError:
+                # never keep the content of a malformed key file
+                self.__key = None
+                raise
+""", """            try:
+                self._validate_key()
+            except EncryptionError:
+                self.__key = self.__generate_key()
+""", expect_rule="generator.callers")
+V("C07-enter-count-first", "C07", "__enter__ counts itself before loading (failure leaks a count)", ENC,
+  "        if not self.__key:\n            self.__load_key()\n\n        self.__refcount += 1\n        return self",
+  "        self.__refcount += 1\n        if not self.__key:\n            self.__load_key()\n\n        return self",
+  expect_rule="enter.no-count-on-failure")
+V("C07-key-cached-attr", "C07", "key copied into an extra attribute that __exit__ does not clear", ENC,
+  "        self.__refcount += 1\n        return self", "        self.__refcount += 1\n        self._last_key = self.__key\n        return self",
+  expect_rule="census.attributes")
+V("C07-generated-16", "C07", "generator writes 16 bytes (validator demands 32)", ENC,
+  "        key = os.urandom(32)", "        key = os.urandom(16)", expect_rule="generated-length")
+V("C07-public-key-getter", "C07", "generate_key hands the key back", ENC,
+  "        self.__generate_key()\n\n    def _validate_key", "        return self.__generate_key()\n\n    def _validate_key",
+  expect_rule="census.no-key-returned")
+V("C07-benign-local-then-store", "C07", "read into a local, validate length, then store", ENC, expect="silent",
+  old="""            with open(filename, "rb") as fp:
+                self.__key = fp.read()""",
+  new="""            with open(filename, "rb") as fp:
+                content = fp.read()
+            self.__key = content""")
+
+# ------------------------------------------------------------------------------------------ C08
+V("C08-iv-constant", "C08", "IV taken from a module constant", ENC,
+  "        iv = os.urandom(16)\n        cipher = Cipher(", "        iv = _STATIC_IV\n        cipher = Cipher(", expect_rule="iv.fresh")
+V("C08-iv-attribute", "C08", "IV generated once per provider object", ENC, edits=[
+    (ENC, "        self.__key = key\n\n    def decrypt(self, ciphertext: bytes) -> bytes:\n        \"\"\"\n        :returns: the plaintext value",
+     "        self.__key = key\n        self._iv = os.urandom(16)\n\n    def decrypt(self, ciphertext: bytes) -> bytes:\n        \"\"\"\n        :returns: the plaintext value"),
+    (ENC, "        iv = os.urandom(16)\n        cipher = Cipher(", "        iv = self._iv\n        cipher = Cipher(")], expect_rule="iv.fresh")
+V("C08-iv-not-prepended", "C08", "IV not stored with the ciphertext", ENC,
+  "        return iv + encryptor.update(padded) + encryptor.finalize()", "        return encryptor.update(padded) + encryptor.finalize()",
+  expect_rule="iv.prepended")
+V("C08-split-12", "C08", "decrypt splits the IV at 12 bytes", ENC,
+  "        iv = ciphertext[:16]\n        ciphertext = ciphertext[16:]", "        iv = ciphertext[:12]\n        ciphertext = ciphertext[12:]", expect_rule="iv.split")
+V("C08-guard-weak", "C08", "length guard accepts 16..31 bytes", ENC,
+  "        if not ciphertext or len(ciphertext) < 32:", "        if not ciphertext or len(ciphertext) < 16:", expect_rule="reject.short-ciphertext")
+V("C08-padding-64", "C08", "encrypt pads to 64-bit blocks, decrypt unpads 128", ENC,
+  "        padder = padding.PKCS7(128).padder()", "        padder = padding.PKCS7(64).padder()", expect_rule="agree.")
+V("C08-xor-decrypt-identity", "C08", "XOR decrypt returns its input", ENC,
+  "        return self.encrypt(ciphertext)", "        return ciphertext", expect_rule="xor.decrypt-is-encrypt")
+V("C08-xor-short-stream", "C08", "XOR only covers the first len(key) bytes", ENC,
+  "        for i, c in zip(range(len(buff)), cycle(self.__key)):", "        for i, c in zip(range(len(buff)), self.__key):", expect_rule="xor.keystream")
+V("C08-unknown-method-xor", "C08", "unknown methods silently fall back to xor", ENC,
+  "        if method in (\"xor\", \"best\"):\n            return XorProvider(self.__key), \"xor\"\n        raise TypeError(\"invalid encryption method: %s\" % method)",
+  "        return XorProvider(self.__key), \"xor\"", expect_rule="reject.unknown-method")
+V("C08-to_python-falls-through", "C08", "malformed stored secret yields None", SEC,
+  "        raise ValueError(\"invalid encrypted value\")", "        return None", expect_rule="reject.")
+V("C08-no-finalize", "C08", "encrypt forgets to finalise the cipher", ENC,
+  "        return iv + encryptor.update(padded) + encryptor.finalize()", "        return iv + encryptor.update(padded)", expect_rule="agree.finalize")
+V("C08-benign-named-const", "C08", "IV size hoisted into a module constant", ENC, expect="silent", edits=[
+    (ENC, "SecureValue = NamedTuple(", "IV_SIZE = 16\n\nSecureValue = NamedTuple("),
+    (ENC, "        iv = os.urandom(16)", "        iv = os.urandom(IV_SIZE)"),
+    (ENC, "        iv = ciphertext[:16]\n        ciphertext = ciphertext[16:]", "        iv = ciphertext[:IV_SIZE]\n        ciphertext = ciphertext[IV_SIZE:]")])
+
+# ------------------------------------------------------------------------------------------ C09
+V("C09-fixed-salt", "C09", "_validate hashes with a constant salt", SEC,
+  "            val = self._hash(value)\n        elif isinstance(value, DigestValue):",
+  "            val = self._hash(value, salt=b\"\\0\" * 64)\n        elif isinstance(value, DigestValue):", expect_rule="salt.not-supplied")
+V("C09-to_python-plaintext", "C09", "to_python keeps a plaintext string as is", SEC,
+  "        if isinstance(value, str):\n            return self._hash(value)\n\n        raise ValueError(\"invalid salt-digest tuple\")",
+  "        if isinstance(value, str):\n            return value\n\n        raise ValueError(\"invalid salt-digest tuple\")", expect_rule="returns.digest-only")
+V("C09-challenge-swapped", "C09", "challenge hashes plaintext + salt", SEC,
+  "        challenge = self.algorithm(self.salt + plaintext).digest()", "        challenge = self.algorithm(plaintext + self.salt).digest()",
+  expect_rule="hash-input.agree")
+V("C09-salt-size-fixed", "C09", "random salt of 8 bytes regardless of the digest", SEC,
+  "            salt = os.urandom(hasher.digest_size)", "            salt = os.urandom(8)", expect_rule="salt.fresh")
+V("C09-salt-not-hashed", "C09", "the digest ignores the salt", SEC,
+  "        hasher.update(salt + plaintext)", "        hasher.update(plaintext)", expect_rule="hash-input")
+V("C09-plaintext-in-value", "C09", "DigestValue keeps the plaintext as 'digest'", SEC,
+  "        return DigestValue(salt, hasher.digest(), algorithm)", "        return DigestValue(salt, plaintext, algorithm)", expect_rule="taint.plaintext-not-in-digest-value")
+V("C09-codec-keys", "C09", "to_basic writes 'hash' but to_python reads 'digest'", SEC,
+  "            \"digest\": base64.b64encode(value.digest).decode(),", "            \"hash\": base64.b64encode(value.digest).decode(),", expect_rule="codec.")
+V("C09-codec-swapped", "C09", "salt and digest swapped when re-building the value", SEC,
+  "            return DigestValue(salt, digest, self.algorithm)", "            return DigestValue(digest, salt, self.algorithm)", expect_rule="codec.component-order")
+V("C09-challenge-no-raise", "C09", "challenge never fails", SEC,
+  "        if self.digest != challenge:\n            raise ValueError(\"challenge failed\")", "        if self.digest != challenge and not challenge:\n            raise ValueError(\"challenge failed\")",
+  expect="limit", note="value-level weakening of the comparison (extra conjunct): out of reach of the structural rule")
+V("C09-challenge-inverted", "C09", "challenge raises on a match", SEC,
+  "        if self.digest != challenge:", "        if self.digest == challenge:", expect_rule="challenge.raises-on-mismatch")
+V("C09-algorithm-table", "C09", "sha256 mapped to sha1", SEC,
+  "        \"sha256\": hashlib.sha256,", "        \"sha256\": hashlib.sha1,", expect_rule="algorithms.table")
+V("C09-default-plain", "C09", "plaintext default stored unhashed", SEC,
+  "            val = DigestValue.create(self.default, self.algorithm)", "            val = self.default", expect_rule="default.hashed")
+V("C09-encoding-differs", "C09", "challenge encodes text as latin-1", SEC,
+  "            plaintext = plaintext.encode()\n\n        challenge =", "            plaintext = plaintext.encode(\"latin-1\")\n\n        challenge =",
+  expect_rule="hash-input.encoding")
